@@ -372,9 +372,52 @@ func RunCheck(opts CheckOpts) int {
 		}
 		fmt.Printf("VIOLATION property=%s replay=%s obligation=%q status=%s%s\n", opts.Prop, path, n, nr.Worst.Res.Status, suffix)
 	}
+	// ---- bounded stand-ins (execution of trusted contracts on generated inputs; never counted as proved) ----
+	bouts, _, berr := RunBounded(eng, opts, findings)
+	if berr != "" {
+		violations++
+		fmt.Printf("VIOLATION property=%s replay=%s obligation=%q bounded-harness-failed no-failing-input-found\n", opts.Prop, writeNote(opts, "bounded-harness", berr), "bounded-harness")
+	}
+	boundedCases := 0
+	for _, bo := range bouts {
+		boundedCases += bo.Cases
+		seen := map[string]bool{}
+		for _, f := range bo.Fails {
+			if f.Known || seen[f.Clause] {
+				continue
+			}
+			seen[f.Clause] = true
+			violations++
+			name := bo.Fn + "#bounded:" + f.Clause
+			failedNames = append(failedNames, name)
+			os.MkdirAll(replayDir, 0o755)
+			path := filepath.Join(replayDir, fmt.Sprintf("%x", sha1.Sum([]byte(name)))[:12]+".json")
+			seed := opts.Seed
+			if seed == 0 {
+				seed = 1
+			}
+			m := map[string]interface{}{"property": opts.Prop, "obligation": name, "function": bo.Fn, "kind": "bounded", "clause": f.Clause,
+				"note":    "bounded stand-in: the trusted contract clause is false on the real function for this generated input",
+				"input":   f.Desc,
+				"bounded": map[string]interface{}{"function": bo.Fn, "case": f.Case, "seed": seed, "generator": bo.Gen},
+				"cmd":     fmt.Sprintf("./check --replay %s", path)}
+			jb, _ := json.MarshalIndent(m, "", " ")
+			os.WriteFile(path, jb, 0o644)
+			fmt.Printf("VIOLATION property=%s replay=%s obligation=%q status=bounded-counterexample\n", opts.Prop, path, name)
+		}
+	}
 	var printed []string
 	for _, f := range findings {
 		if f.Property != opts.Prop {
+			continue
+		}
+		dup := false
+		for _, w := range printed {
+			if w == f.What {
+				dup = true
+			}
+		}
+		if dup {
 			continue
 		}
 		present, note := replayWitness(opts, f)
@@ -411,6 +454,16 @@ func RunCheck(opts CheckOpts) int {
 		assumedExt = append(assumedExt, k)
 	}
 	sort.Strings(assumedExt)
+	var assumedPre []string
+	for _, k := range keys {
+		if ct := eng.contracts[k]; ct != nil {
+			for _, cl := range ct.Requires {
+				if cl.Assumed {
+					assumedPre = append(assumedPre, k+": "+cl.Text)
+				}
+			}
+		}
+	}
 	var trusted, mathint []string
 	for _, ct := range eng.order {
 		if ct.Trusted {
@@ -446,7 +499,9 @@ func RunCheck(opts CheckOpts) int {
 			"trusted_contracts":        trusted,
 			"mathematical_int_assumed": mathint,
 			"assumed_externals":        assumedExt,
-			"bounded":                  []string{},
+			"assumed_wellformedness":   assumedPre,
+			"bounded":                  boundedEvidence(bouts),
+			"bounded_cases_executed_not_proof": boundedCases,
 			"renamed_locals_recovered": eng.renameNotes,
 		},
 		"assumptions": assumptionList(assumedExt, trusted),
@@ -458,6 +513,25 @@ func RunCheck(opts CheckOpts) int {
 	}
 	fmt.Printf("govc: property=%s tier=%s functions=%d obligations=%d discharged=%d violations=%d covers=%d/%d wall=%.1fs (exec %.1fs, solver %.1fs)\n",
 		opts.Prop, opts.Tier, len(funcs), nObl, nDis, violations, coversSat, covers, time.Since(t0).Seconds(), tExec.Seconds(), float64(solverMs)/1000)
+	for _, bo := range bouts {
+		nf, nk := 0, 0
+		for _, f := range bo.Fails {
+			if f.Known {
+				nk++
+			} else {
+				nf++
+			}
+		}
+		fmt.Printf("govc: bounded (not proof) %s: %d cases executed, %d skipped, %d clauses, %d failing reports, %d known-finding reports\n", bo.Fn, bo.Cases, bo.Skipped, len(bo.Clauses), nf, nk)
+		if opts.Verbose {
+			for _, f := range bo.Fails {
+				fmt.Printf("        %s case=%d known=%v %s\n", f.Clause, f.Case, f.Known, f.Desc)
+			}
+			if len(bo.Unexec) > 0 {
+				fmt.Printf("        not executable: %v\n", bo.Unexec)
+			}
+		}
+	}
 	if opts.Verbose {
 		for _, n := range names {
 			nr := byName[n]
@@ -481,6 +555,22 @@ func RunCheck(opts CheckOpts) int {
 			}
 		}
 	}
+	if debugQSites {
+		type kv struct {
+			k string
+			v int
+		}
+		var l []kv
+		for k, v := range qsites {
+			l = append(l, kv{k, v})
+		}
+		sort.Slice(l, func(i, j int) bool { return l[i].v > l[j].v })
+		for i, e := range l {
+			if i < 15 {
+				fmt.Printf("   qsite %6d %s\n", e.v, e.k)
+			}
+		}
+	}
 	if nObl == 0 {
 		fmt.Fprintln(os.Stderr, "govc: no obligations were generated (vacuous check)")
 		return 2
@@ -489,6 +579,13 @@ func RunCheck(opts CheckOpts) int {
 		return 1
 	}
 	return 0
+}
+
+func boundedEvidence(bouts []*BoundedOutcome) interface{} {
+	if len(bouts) == 0 {
+		return []string{}
+	}
+	return bouts
 }
 
 func writeNote(opts CheckOpts, name, text string) string {
